@@ -211,6 +211,9 @@ type Sim struct {
 	fninfo       map[*ssa.Function]*fnInfo
 	modCache     map[*types.Var]map[*ssa.Function]bool
 	UnknownCalls map[string]int
+	// fvBind maps the free variables of an inlined closure to the locals of its parent that they
+	// capture, so that the closure reads and writes the parent's cells (deferred clean-up closures).
+	fvBind map[*ssa.FreeVar]*ssa.Alloc
 }
 
 type fnInfo struct {
@@ -384,7 +387,10 @@ func (s *Sim) cellOf(fn *ssa.Function, addr ssa.Value) interface{} {
 			return f
 		}
 	case *ssa.FreeVar:
-		// a captured local of the parent: not modelled
+		// a captured local of the parent: modelled when the closure was inlined from its MakeClosure
+		if al := s.fvBind[a]; al != nil && s.info(al.Parent()).okAllocs[al] {
+			return al
+		}
 	}
 	return nil
 }
@@ -861,8 +867,26 @@ func (s *Sim) takeEdge(rc *runCtx, it workItem, st *State, b, succ *ssa.BasicBlo
 			delete(st.vals, v)
 		}
 	}
+	// locals captured by a deferred closure that is still pending stay live: the closure reads them
+	// when the function returns
+	var deferCaptured map[*ssa.Alloc]bool
+	for _, df := range st.defers {
+		if mc, ok := df.Call.Value.(*ssa.MakeClosure); ok {
+			for _, bnd := range mc.Bindings {
+				if al, ok := bnd.(*ssa.Alloc); ok {
+					if deferCaptured == nil {
+						deferCaptured = map[*ssa.Alloc]bool{}
+					}
+					deferCaptured[al] = true
+				}
+			}
+		}
+	}
 	for c := range st.cells {
 		if a, ok := c.(*ssa.Alloc); ok {
+			if deferCaptured[a] || a.Parent() != succ.Parent() {
+				continue // (a captured local of the parent, seen from inside an inlined closure)
+			}
 			live := false
 			for _, ub := range fi.useBlk[a] {
 				if fi.reach[succ.Index][ub] {
@@ -1147,6 +1171,19 @@ func (s *Sim) inlineCall(it workItem, st *State, call ssa.CallInstruction, calle
 	for c, a := range st.cells {
 		if _, isAlloc := c.(*ssa.Alloc); !isAlloc {
 			entry.cells[c] = a
+		}
+	}
+	if mc, ok := call.Common().Value.(*ssa.MakeClosure); ok && mc.Fn == ssa.Value(callee) {
+		if s.fvBind == nil {
+			s.fvBind = map[*ssa.FreeVar]*ssa.Alloc{}
+		}
+		for i, b := range mc.Bindings {
+			if al, ok := b.(*ssa.Alloc); ok && i < len(callee.FreeVars) {
+				s.fvBind[callee.FreeVars[i]] = al
+				if a, have := st.cells[al]; have {
+					entry.cells[al] = a
+				}
+			}
 		}
 	}
 	for k, v := range st.aux {
